@@ -202,26 +202,27 @@ Definition own_opts (c : cfg) (w : wstate) : list eopt :=
 Definition finish_opts (w : wstate) (l : list eopt) : list eopt :=
   strip_code code_keepalive (strip_code code_ecs l) ++ (if w_ka w then [keepalive_opt] else []).
 
-(* the !noedns branch of WriteMsg *)
-Definition shape_opt (c : cfg) (w : wstate) (m : msg) : msg :=
+(* the !noedns branch of WriteMsg, on the additional section *)
+Definition shape_ex (c : cfg) (w : wstate) (ex : list xrr) : list xrr :=
   (* the state of the writer-owned OPT when WriteMsg starts *)
-  let wcur := match find_req (m_ex m) with Some o => Some o | None => w_opt w end in
-  match split_last_opt (m_ex m) with
+  let wcur := match find_req ex with Some o => Some o | None => w_opt w end in
+  match split_last_opt ex with
   | None =>
       (* no OPT in the response: ours (ensureOpt) is appended *)
       let own := match wcur with Some o => o | None => fresh_opt end in
       let o1 := opt_set_size (opt_set_do own (w_do w)) (w_resp w) in
-      with_ex m (m_ex m ++ [XO (opt_set_opts o1 (finish_opts w (o_opts own ++ own_opts c w)))])
+      ex ++ [XO (opt_set_opts o1 (finish_opts w (o_opts own ++ own_opts c w)))]
   | Some (pre, (true, o), suf) =>
       (* the response carries the writer-owned OPT itself *)
       let o1 := opt_set_size (opt_set_do o (w_do w)) (w_resp w) in
-      with_ex m (pre ++ XO (opt_set_opts o1 (finish_opts w (o_opts o ++ own_opts c w))) :: suf)
+      pre ++ XO (opt_set_opts o1 (finish_opts w (o_opts o ++ own_opts c w))) :: suf
   | Some (pre, (false, o), suf) =>
       (* a response OPT of its own: every option it has is KEPT, ours are merged in *)
       let o1 := opt_set_size (opt_set_do o (w_do w)) (w_resp w) in
       let ours := match wcur with Some wo => o_opts wo | None => [] end ++ own_opts c w in
-      with_ex m (pre ++ XO (opt_set_opts o1 (finish_opts w (o_opts o ++ ours))) :: suf)
+      pre ++ XO (opt_set_opts o1 (finish_opts w (o_opts o ++ ours))) :: suf
   end.
+Definition shape_opt (c : cfg) (w : wstate) (m : msg) : msg := with_ex m (shape_ex c w (m_ex m)).
 
 (* ---- sizes ---- *)
 Definition sumN {A} (f : A -> N) (l : list A) : N := fold_right (fun x a => f x + a) 0 l.
@@ -289,26 +290,62 @@ Definition badvers_reply (q : msg) (f : facts) : msg :=
   mk_msg (mk_hdr (h_id h) true (h_opcode h) false false true true false false (h_cd h) rcode_badvers)
          (m_q m) [] [] (map norm_x (replace_last_opt (m_ex q) o')).
 
-(* EDNS.ServeDNS with everything downstream played by [dn] (None: nothing written) *)
-Definition edns_serve (tr : transport) (c : cfg) (q : msg) (strict : bool) (dn : option msg) (clen : N) : option msg :=
+(* ---- the byte path of the writer (WireReady said yes, WriteWire is handed a packed body) ---- *)
+(* the OPT appendWireOPT encodes: cookie, NSID, keepalive, then the Extended DNS Error the caller passes *)
+Definition wire_opt (c : cfg) (w : wstate) (ede : option eopt) : opt :=
+  mk_opt 0 (w_resp w) (w_do w) 0
+         (own_opts c w ++ (if w_ka w then [keepalive_opt] else []) ++ (match ede with Some e => [e] | None => [] end)).
+
+(* ResponseWriter.WriteWire on a body that decodes to [d] (no OPT) and is [blen] bytes long;
+   [hasdnssec] / [ede] are the caller's WireInfo.  None = ErrWireFallback. *)
+Definition write_wire (tr : transport) (c : cfg) (w : wstate) (d : msg) (hasdnssec : bool) (ede : option eopt)
+           (blen : N) : option msg :=
+  if negb (w_do w) && hasdnssec then None
+  else
+    let d1 := if w_noad w && h_ad (m_hdr d) then with_hdr d (set_ad (m_hdr d) false) else d in
+    if w_noedns w then
+      if is_udp tr && (w_size w <? blen) then None else Some d1
+    else
+      let o := wire_opt c w ede in
+      if is_udp tr && (w_size w <? blen + opt_len o) then None
+      else Some (with_ex d1 (m_ex d1 ++ [XO o])).
+
+(* a last handler that tries the byte path with the response minus its OPT and re-serves the
+   whole message through WriteMsg on ErrWireFallback (what the cache does) *)
+Definition wire_then_msg (tr : transport) (c : cfg) (hasdnssec : bool) (ede : option eopt) (blen clen : N)
+           (w : wstate) (d : msg) : msg :=
+  match write_wire tr c w (clear_opt d) hasdnssec ede blen with
+  | Some r => norm r
+  | None => shape_reply tr c w d clen
+  end.
+
+(* EDNS.ServeDNS with everything downstream played by [dn] (None: nothing written);
+   [wr] is what the wrapped writer does with the message it is handed *)
+Definition edns_serve_gen (wr : wstate -> msg -> msg) (tr : transport) (c : cfg) (q : msg) (strict : bool)
+           (dn : option msg) : option msg :=
   if (edns_opcode_floor <? Z.of_N (h_opcode (m_hdr q)))%Z then Some (not_supported q)
   else
     let f := set_edns0 c q in
     if negb (f_ver f =? 0) then Some (badvers_reply q f)
     else match dn with
          | None => None
-         | Some d => Some (shape_reply tr c (mk_wstate tr strict q f) d clen)
+         | Some d => Some (wr (mk_wstate tr strict q f) d)
          end.
+Definition edns_serve (tr : transport) (c : cfg) (q : msg) (strict : bool) (dn : option msg) (clen : N) : option msg :=
+  edns_serve_gen (fun w d => shape_reply tr c w d clen) tr c q strict dn.
 
 (* the transport's own last touch: DoQ rewrites the ID *)
 Definition transport_write (tr : transport) (m : msg) : msg :=
   match tr with DOQ => with_hdr m (set_id (m_hdr m) doq_reply_id) | _ => m end.
 
 (* Server.serveMsgBy *)
-Definition serve_msg (tr : transport) (c : cfg) (q : msg) (strict : bool) (dn : option msg) (clen : N) : option msg :=
+Definition serve_msg_gen (wr : wstate -> msg -> msg) (tr : transport) (c : cfg) (q : msg) (strict : bool)
+           (dn : option msg) : option msg :=
   option_map (transport_write tr)
     (if negb (length (m_q q) =? 1)%nat then Some (set_rcode q rcode_formerr)
-     else edns_serve tr c q strict dn clen).
+     else edns_serve_gen wr tr c q strict dn).
+Definition serve_msg (tr : transport) (c : cfg) (q : msg) (strict : bool) (dn : option msg) (clen : N) : option msg :=
+  serve_msg_gen (fun w d => shape_reply tr c w d clen) tr c q strict dn.
 
 (* ---- header-level accept (datagram and stream listeners) ---- *)
 Inductive verdict := AcceptOK | AcceptIgnore | AcceptNotImp | AcceptFormErr.
@@ -326,8 +363,8 @@ Definition reject_in_place (h : T_Header) (rc : N) : msg :=
                  (negb (N.land (T_Header_Flags h) 256 =? 0)) false false false false rc) [] [] [] [].
 
 (* udpEngine.serve / tcpEngine.serveFrame; [body] = the library's decode of the packet *)
-Definition serve_raw (tr : transport) (c : cfg) (h : T_Header) (body : option msg) (strict : bool)
-           (dn : option msg) (clen : N) : option msg :=
+Definition serve_raw_gen (wr : wstate -> msg -> msg) (tr : transport) (c : cfg) (h : T_Header) (body : option msg)
+           (strict : bool) (dn : option msg) : option msg :=
   match accept_header h with
   | AcceptIgnore => None
   | AcceptNotImp => Some (reject_in_place h rcode_notimp)
@@ -335,6 +372,9 @@ Definition serve_raw (tr : transport) (c : cfg) (h : T_Header) (body : option ms
   | AcceptOK =>
       match body with
       | None => Some (reject_in_place h rcode_formerr)
-      | Some q => serve_msg tr c q strict dn clen
+      | Some q => serve_msg_gen wr tr c q strict dn
       end
   end.
+Definition serve_raw (tr : transport) (c : cfg) (h : T_Header) (body : option msg) (strict : bool)
+           (dn : option msg) (clen : N) : option msg :=
+  serve_raw_gen (fun w d => shape_reply tr c w d clen) tr c h body strict dn.
